@@ -11,6 +11,7 @@ package httpserver
 
 import (
 	"crypto/hmac"
+	"crypto/md5"
 	"crypto/sha1"
 	"crypto/sha256"
 	"crypto/sha512"
@@ -41,7 +42,13 @@ func c06HashFor(alg string) func() hash.Hash {
 
 // c06JWT writes a compact JWS. claims is emitted in the given order.
 func c06JWT(alg string, secret []byte, claims [][2]string) string {
-	head := fmt.Sprintf(`{"alg":%q,"typ":"JWT"}`, alg)
+	return c06JWTx(alg, alg, "", secret, claims)
+}
+
+// c06JWTx: the header names alg (plus the optional extra header members), the
+// signature is computed with the HMAC of signAlg.
+func c06JWTx(alg, signAlg, extraHead string, secret []byte, claims [][2]string) string {
+	head := fmt.Sprintf(`{"alg":%q,"typ":"JWT"%s}`, alg, extraHead)
 	var b strings.Builder
 	b.WriteByte('{')
 	for i, kv := range claims {
@@ -52,7 +59,7 @@ func c06JWT(alg string, secret []byte, claims [][2]string) string {
 	}
 	b.WriteByte('}')
 	input := c06B64([]byte(head)) + "." + c06B64([]byte(b.String()))
-	hf := c06HashFor(alg)
+	hf := c06HashFor(signAlg)
 	if hf == nil {
 		// unsecured JWS ("none"): empty signature part
 		return input + "."
@@ -72,6 +79,82 @@ func c06Basic(user, pass string) string {
 func c06HtpasswdSHA(pass string) string {
 	s := sha1.Sum([]byte(pass))
 	return "{SHA}" + base64.StdEncoding.EncodeToString(s[:])
+}
+
+// c06HtpasswdSSHA is the salted "{SSHA}" scheme (RFC 2307 style: SHA-1 over
+// password||salt, base64 of digest||salt).
+func c06HtpasswdSSHA(pass string, salt []byte) string {
+	h := sha1.New()
+	h.Write([]byte(pass))
+	h.Write(salt)
+	return "{SSHA}" + base64.StdEncoding.EncodeToString(append(h.Sum(nil), salt...))
+}
+
+// c06Apr1 is Apache's "$apr1$" variant of the MD5-crypt algorithm of
+// Poul-Henning Kamp (the default of htpasswd -m), written from the published
+// description of the algorithm.
+func c06Apr1(pass, salt string) string {
+	const magic = "$apr1$"
+	const itoa64 = "./0123456789ABCDEFGHIJKLMNOPQRSTUVWXYZabcdefghijklmnopqrstuvwxyz"
+	pw := []byte(pass)
+	alt := md5.New()
+	alt.Write(pw)
+	alt.Write([]byte(salt))
+	alt.Write(pw)
+	altSum := alt.Sum(nil)
+	ctx := md5.New()
+	ctx.Write(pw)
+	ctx.Write([]byte(magic))
+	ctx.Write([]byte(salt))
+	for n := len(pw); n > 0; n -= 16 {
+		if n > 16 {
+			ctx.Write(altSum)
+		} else {
+			ctx.Write(altSum[:n])
+		}
+	}
+	for n := len(pw); n > 0; n >>= 1 {
+		if n&1 == 1 {
+			ctx.Write([]byte{0})
+		} else {
+			ctx.Write(pw[:1])
+		}
+	}
+	sum := ctx.Sum(nil)
+	for i := 0; i < 1000; i++ {
+		c := md5.New()
+		if i&1 == 1 {
+			c.Write(pw)
+		} else {
+			c.Write(sum)
+		}
+		if i%3 != 0 {
+			c.Write([]byte(salt))
+		}
+		if i%7 != 0 {
+			c.Write(pw)
+		}
+		if i&1 == 1 {
+			c.Write(sum)
+		} else {
+			c.Write(pw)
+		}
+		sum = c.Sum(nil)
+	}
+	var out []byte
+	to64 := func(v uint32, n int) {
+		for ; n > 0; n-- {
+			out = append(out, itoa64[v&0x3f])
+			v >>= 6
+		}
+	}
+	to64(uint32(sum[0])<<16|uint32(sum[6])<<8|uint32(sum[12]), 4)
+	to64(uint32(sum[1])<<16|uint32(sum[7])<<8|uint32(sum[13]), 4)
+	to64(uint32(sum[2])<<16|uint32(sum[8])<<8|uint32(sum[14]), 4)
+	to64(uint32(sum[3])<<16|uint32(sum[9])<<8|uint32(sum[15]), 4)
+	to64(uint32(sum[4])<<16|uint32(sum[10])<<8|uint32(sum[5]), 4)
+	to64(uint32(sum[11]), 2)
+	return magic + salt + "$" + string(out)
 }
 
 // ---- Signature V4 with configurable literals -----------------------------
